@@ -169,3 +169,21 @@ define(globals(), 'C07', 'bundle_through_bytes', AV + ['i0', 'n0', 'v1', 'i1'], 
        bounds='a Multiple Service Packet [Read Tag A[i0] x n0, Write Tag A[i1]=v1, Read Tag Fragmented A[0-3]] encoded by the reference encoder, '
               'through the real frame/CPF/Unconnected Send/MSP parsers and request handlers; embedded replies decoded by the reference decoder: each '
               'member (valid or out of range) gets its own reply in order, the last read observes exactly the effect of the write', outside='')
+
+
+# ---- bundle vs. one-by-one under a scaled reply-size budget (Logix.MAX_BYTES is user alterable) -----------------------------------------------
+def do_bundle_budget(a, budget, n0, n1, i1):
+    saved = logix.Logix.MAX_BYTES
+    logix.Logix.MAX_BYTES = budget
+    try:
+        return do_bundle(['rf', 'rf', 'rd'], a, [5, 6], [(0, n0, 0), (i1, n1, 0), (0, N, 0)])
+    finally:
+        logix.Logix.MAX_BYTES = saved
+
+
+define(globals(), 'C07', 'bundle_reads_under_small_budget', AV + ['budget', 'n0', 'n1', 'i1'], "return do_bundle_budget([%s], budget, n0, n1, i1)" % ", ".join(AV),
+       [" and ".join('-32768 <= %s <= 32767' % a for a in AV), '1 <= budget <= 10 and 1 <= n0 <= %d and 1 <= n1 <= %d and 0 <= i1 <= %d' % (N, N, N - 1)],
+       timeout=3000, path_timeout=300, drives=DRIVES,
+       symbolic=['budget: the reply-size budget Logix.MAX_BYTES scaled down to 1..10 bytes (so fragments end inside the bundle)', 'n0, n1, i1', 'a0..a3'],
+       bounds='bundle [Read Tag Fragmented, Read Tag Fragmented, Read Tag] with a reply budget of 1..10 bytes: each embedded reply (status 0x00/0x06, data) '
+              'equals the reply of the same request issued alone -- bundling does not shrink or grow a member\'s fragment', outside='')
